@@ -428,14 +428,15 @@ def init_reference(pid, caller):
     the test-suite: same number of phases -> linked by list order; more phases ->
     phases whose id is absent from the data are dropped from the end until the
     numbers agree, then linked by order; fewer -> each id takes the phase with that id,
-    a default phase otherwise; not_indexed at -1 iff -1 is in the data."""
+    a default phase otherwise; not_indexed at -1 iff -1 is in the data -- an entry of id
+    -1 in the caller's list takes no part in the linking."""
     u = sorted(set(pid) - {-1})
     ni = [-1, {"n": "not_indexed", "g": None, "s": 0}]
     dflt = {"n": "", "g": None, "s": 0}
     if caller is None:
         out = [[i, dflt] for i in u]
     else:
-        L = list(caller)
+        L = [e for e in caller if e[0] != -1]
         if len(L) > len(u):
             surplus = len(L) - len(u)
             drop = sorted([e[0] for e in L if e[0] not in u], reverse=True)[:surplus]
@@ -522,9 +523,10 @@ def run_map_case(c):
         return
     views = [x]
     c["init"] = {"ok": obs_state(views)}
+    caller_eff = None if caller_before is None else [e for e in caller_before if e[0] != -1]
     strat = "none" if caller_before is None else (
-        "more" if len(caller_before) > len(set(c["pid"]) - {-1}) else
-        "equal" if len(caller_before) == len(set(c["pid"]) - {-1}) else "fewer")
+        "more" if len(caller_eff) > len(set(c["pid"]) - {-1}) else
+        "equal" if len(caller_eff) == len(set(c["pid"]) - {-1}) else "fewer")
     st(f"init/{strat}/ni={int(-1 in c['pid'])}")
     # ---- oracle on construction
     tag = ""
@@ -537,7 +539,7 @@ def run_map_case(c):
         fail("init:caller-list-altered", f"caller's phase list changed from {caller_before} to {obs_pl(caller)}", rep)
     if caller_before is not None and strat == "fewer":
         kept = [e[1] for e in c["init"]["ok"]["phases"]]
-        lost = [e for e in caller_before if e[1] not in kept and e[1]["n"] != "not_indexed"]
+        lost = [e for e in caller_eff if e[1] not in kept and e[1]["n"] != "not_indexed"]
         if lost:
             fail("init:fewer:caller-phase-dropped",
                  f"phase list with fewer phases than ids: caller's phases {lost} are dropped (linked by id, "
